@@ -16,7 +16,7 @@ def plan(tier: str, seed: int) -> Plan:
     for ms in ([1, 2, 3, 4] if thorough else [1, 2]):
         conds.append(Condition(f"parse-print-text:len{ms}", "text", H, "parse_print_text", {"maxs": ms}, T * (1 if ms > 1 and not thorough else 2), required=(ms == 1),
                                bounds=f"two symbolic pointer strings, len<={ms}, RFC 6901 syntax, no backslash, escape decoding off"))
-    sg = 19 if thorough else 8
+    sg = 20 if thorough else 9
     for ue in (False, True):
         for nt in (1, 2):
             conds.append(Condition(f"tokens-sigma:ue={ue}:nt={nt}", "tokens", H, "tokens_sigma",
